@@ -243,6 +243,7 @@ def to_model_input(sp: Spies):
         return ids[id(node)]
 
     def concrete(node):
+        """adapt_node can build a valid singleton model: all ranks known, no reference attribute"""
         vs = list(node.inputs.get_vars().values()) + list(node.outputs.get_vars().values())
         return all(v.type is not None and getattr(v.type, "shape", ()) is not None for v in vs)
 
@@ -279,8 +280,9 @@ def to_model_input(sp: Spies):
                         if len(ch) != 1:
                             notes.append(f"body {want}: {len(ch)} compile records")
                         subs += [graph(c) for c in ch[:1]]
+                has_ref = any(a.ref_attr_name for p_ in protos for a in p_.attribute)
                 j.update(k="op", d=node.op_type.domain, o=node.op_type.identifier, v=node.op_type.version,
-                         c=concrete(node), subs=subs)
+                         c=concrete(node) and not has_ref, subs=subs)
             out.append(j)
         if n_intro != 1:
             notes.append(f"{n_intro} _Introduce nodes in one compiled graph")
@@ -405,10 +407,16 @@ def extract_real(obs):
         real["imports"] = [[o.domain, o.version] for o in obs["model"].opset_import]
 
         def collect(g):
+            # BuildResult.functions: the graph's own Function nodes (each with its graph's functions),
+            # then the functions of the bodies of its other nodes
             for j in g["nodes"]:
                 n = nodes_by_id[j["id"]]
                 if isinstance(n, Function):
                     real["func_keys"].append([n.op_type.domain, n.op_type.identifier])
+                    for s_ in j.get("subs", []):
+                        collect(s_)
+            for j in g["nodes"]:
+                if not isinstance(nodes_by_id[j["id"]], Function):
                     for s_ in j.get("subs", []):
                         collect(s_)
 
@@ -696,6 +704,9 @@ def classify(stage, prog, msg=""):
         return "adapt:body-own-opsets:converted-node-in-body"
     if bad_attr and "inline-in-body-below-import" in feats and feats <= body_family:
         return "adapt:body-own-opsets:inline-in-body"
+    if stage in ("build-raises-InferenceError", "construct-raises-InferenceError") and "expect a" in msg \
+            and feats == {"ref-attr-converted"}:
+        return "adapt:ref-attribute-in-function-body:build-fails"
     if bad_attr and feats == {"inline-below-14-target-14"}:
         return "adapt-inline:source-below-14:not-converted"
     return f"{stage}:{'+'.join(sorted(feats)) or 'plain'}"
@@ -820,7 +831,7 @@ def witness_programs():
     out = []
     for name in ("C09-body-own-opsets.json", "C09-unknown-rank.json", "C09-duplicate-fresh-name.json",
                  "C09-inline-below-14.json", "C09-fresh-name-main-and-body.json",
-                 "C09-inline-in-body.json"):
+                 "C09-inline-in-body.json", "C09-ref-attribute.json"):
         p = FINDINGS_DIR / name
         if p.exists():
             out.append((name, json.loads(p.read_text())["case"]["prog"]))
